@@ -128,3 +128,65 @@ Proof.
   destruct (e_searches (ps_entry s)); [apply single_prog_lock|constructor].
 Qed.
 End Facts.
+
+(** ** Write order (C12): in every piece program, every write into a file is preceded - in the same
+    program, with nothing but a successful answer in between - by [set_len declared] on that file. *)
+Inductive armed_ok : option (path * N) -> prog -> Prop :=
+| ao_ret a o : armed_ok a (Ret o)
+| ao_read a p off len k : (forall r, armed_ok a (k r)) -> armed_ok a (Read p off len k)
+| ao_probe a p w k : (forall r, armed_ok a (k r)) -> armed_ok a (Probe p w k)
+| ao_lock a i k : armed_ok a k -> armed_ok a (Lock i k)
+| ao_unlock a i k : armed_ok a k -> armed_ok a (Unlock i k)
+| ao_mkdir a p k : (forall b, armed_ok None (k b)) -> armed_ok a (Mut (MkdirAll p) k)
+| ao_open a p c t k : (forall b, armed_ok None (k b)) -> armed_ok a (Mut (OpenW p c t) k)
+| ao_setlen a p n k : armed_ok (Some (p, n)) (k true) -> armed_ok None (k false) -> armed_ok a (Mut (SetLen p n) k)
+| ao_write p n off d k : (forall b, armed_ok None (k b)) -> armed_ok (Some (p, n)) (Mut (WriteAt p off d) k).
+
+Section WriteOrder.
+Variable H : list N -> list N.
+
+Lemma write_prog_armed : forall segs srcs buf start, armed_ok None (write_prog segs srcs buf start).
+Proof.
+  induction segs as [|s segs IH]; intros srcs buf start; cbn [write_prog]; [constructor|].
+  destruct srcs as [|src srcs]; [constructor|].
+  destruct (e_pad (ps_entry s)); [apply IH|].
+  destruct (match src with Some sp => path_eqb (e_target (ps_entry s)) sp | None => false end); [apply IH|].
+  destruct (slice_opt buf start (start + ps_len s)); [|constructor].
+  constructor. constructor. intros [|]; cbn [negb]; [|repeat constructor].
+  constructor. intros [|]; cbn [negb]; [|repeat constructor].
+  constructor; cbn [negb]; [|repeat constructor].
+  constructor. intros [|]; cbn [negb]; [|repeat constructor].
+  constructor. apply IH.
+Qed.
+
+Lemma preload_seg_armed : forall cands off len acc k, (forall l, armed_ok None (k l)) -> armed_ok None (preload_seg cands off len acc k).
+Proof.
+  induction cands as [|c cs IH]; intros off len acc k Hk; cbn [preload_seg]; [apply Hk|].
+  constructor. intros [v|]; [|constructor]. destruct (existsb _ acc); apply IH; exact Hk.
+Qed.
+
+Lemma preload_armed : forall segs k, (forall c, armed_ok None (k c)) -> armed_ok None (preload segs k).
+Proof.
+  induction segs as [|s r IH]; intros k Hk; cbn [preload]; [apply Hk|].
+  destruct (e_pad (ps_entry s)); [apply IH; intros c; apply Hk|].
+  destruct (ps_len s =? 0); [apply IH; intros c; apply Hk|].
+  destruct (e_searches (ps_entry s)) as [cands|]; [|constructor].
+  apply preload_seg_armed. intros l. apply IH. intros c. apply Hk.
+Qed.
+
+Lemma single_prog_armed pc s : forall cands, armed_ok None (single_prog H pc s cands).
+Proof.
+  induction cands as [|c cs IH]; cbn [single_prog]; [constructor|].
+  constructor. intros [bs|]; [|constructor]. destruct (beq (H bs) (w_hash pc)); [apply write_prog_armed|exact IH].
+Qed.
+
+Theorem solve_prog_write_order pc : armed_ok None (solve_prog H pc).
+Proof.
+  unfold solve_prog. destruct (rejected pc); [constructor|].
+  assert (Hm : armed_ok None (multi_prog H pc)).
+  { unfold multi_prog. apply preload_armed. intros c. destruct c; [constructor|].
+    destruct (find_combo H (w_hash pc) (l :: c) []); [apply write_prog_armed|constructor]. }
+  destruct (w_segs pc) as [|s [|s2 r]]; try exact Hm.
+  destruct (e_pad (ps_entry s)); [exact Hm|]. destruct (e_searches (ps_entry s)); [apply single_prog_armed|constructor].
+Qed.
+End WriteOrder.
